@@ -529,8 +529,9 @@ def rule_cs_accept(cx, rep, port):
         # the field: appended to the result list, or returned as a component
         fields = [c.args[0] for c in q.calls if isinstance(c, ast.Call) and isinstance(c.func, ast.Attribute) and c.func.attr in ('append', 'push') and c.args]
         is_pos = lambda e: any(isinstance(x, ast.Call) and dotted(x.func) == 'len' and x.args and is_name(x.args[0], dlm) for x in ast.walk(e))  # noqa: E731
-        fields += [e for e in elts if not is_pos(e) and (from_match(e) is not None or is_plain_slice(e))]
-        rest = [e for e in elts if is_pos(e) or not (from_match(e) is not None or is_plain_slice(e))]
+        is_bool = lambda e: isinstance(e, (ast.Compare, ast.BoolOp)) or (isinstance(e, ast.UnaryOp) and isinstance(e.op, ast.Not)) or (isinstance(e, ast.Constant) and isinstance(e.value, bool))  # noqa: E731
+        fields += [e for e in elts if not is_pos(e) and not is_bool(e) and (from_match(e) is not None or is_plain_slice(e))]
+        rest = [e for e in elts if is_pos(e) or is_bool(e) or not (from_match(e) is not None or is_plain_slice(e))]
         if len(fields) != 1 or len(rest) != 2:
             rep.undecided('accept test', q.node, 'a path of extract_next_field yields {} field(s) and {} other component(s)'.format(len(fields), len(rest)))
             return
